@@ -99,7 +99,10 @@ func (f *rawFileWriter) Close() error {
 		return err
 	}
 
-	f.w.Flush()
+	if err := f.w.Flush(); err != nil {
+		f.fd.Close()
+		return err
+	}
 	if err := vfs("close", f.fd.Name()); err != nil {
 		f.fd.Close()
 		return err
